@@ -172,6 +172,7 @@ func planC09(tier string, root *simcore.RNG) *plan {
 // c09post compares every job digest with the canonical digest of its signature.
 func c09post(outs []runOut) []violation {
 	canon := map[string]string{}
+	canon2 := map[string]string{}
 	canonSc := map[string]*Scenario{}
 	for i := range outs {
 		o := &outs[i]
@@ -181,6 +182,7 @@ func c09post(outs []runOut) []violation {
 		for _, j := range o.res.Jobs {
 			if j.Digest != "" {
 				canon[j.Sig] = j.Digest
+				canon2[j.Sig] = j.Digest2
 				canonSc[j.Sig] = o.sc
 			}
 		}
@@ -195,6 +197,22 @@ func c09post(outs []runOut) []violation {
 			want, ok := canon[j.Sig]
 			if !ok || j.Digest == "" {
 				continue
+			}
+			if j.Digest != want && j.Digest2 != "" && j.Digest2 == canon2[j.Sig] {
+				// the files agree except for owner handles (group 330)
+				others := 0
+				for _, g := range o.sc.Groups {
+					for _, oj := range g {
+						if oj.Sink == "dxf" {
+							others++
+						}
+					}
+				}
+				vs = append(vs, violation{Prop: "C09", Class: "dxf-owner-handles",
+					Msg: fmt.Sprintf("job %d (%s): the DXF file differs from the canonical execution's only in handle references (owner 330, plot style 390) of the table records that yofu/dxf shares between drawings; %d DXF drawings were alive in this process", j.ID, j.Sig, others),
+					Sig: "dxf-owner-handles|" + sigKind(j.Sig),
+					Sc:  o.sc, Ref: canonSc[j.Sig], RefDig: want, Trace: o.res.TraceHash})
+				break
 			}
 			if j.Digest != want {
 				vs = append(vs, violation{Prop: "C09", Class: "nondeterministic-output",
